@@ -14,18 +14,20 @@ package c09
 // In is the generated input of one case. Object lists are run-length encoded as
 // [count, pad] pairs: `count` objects whose padding annotation is `pad` bytes long.
 type In struct {
-	Kind    string     `json:"kind"`     // "sync" (one external plugin) | "pre" (pre-installed plugins) | "restart" (one stub, two sessions; pods/ctrs are the SECOND session's state)
-	First   *FirstIn   `json:"first"`    // kind "restart": the first, abandoned session
-	Pods    [][2]int   `json:"pods"`     // runs of [count, pad]
-	Ctrs    [][2]int   `json:"ctrs"`     // runs of [count, pad]
-	Handler string     `json:"handler"`  // "record" | "none" | "error"
-	Updates int        `json:"updates"`  // container updates the handler returns (first k containers)
-	Slack   int        `json:"slack"`    // spare capacity of the slices the runtime's SyncFn passes (0 = cap == len)
-	Limit   int        `json:"limit"`    // ttrpc's maximum message length
-	MinObjs int        `json:"min_objs"` // documented minimum objects per message of the sender
-	Plugins []PluginIn `json:"plugins"`  // kind "pre": the pre-installed plugins (launched by Adaptation.Start)
-	Stream  string     `json:"stream"`   // which generator stream produced the case
-	Note    string     `json:"note"`
+	Kind         string     `json:"kind"`           // "sync" (one external plugin) | "pre" (pre-installed plugins) | "restart" (one stub, two sessions; pods/ctrs are the SECOND session's state)
+	First        *FirstIn   `json:"first"`          // kind "restart": the first, abandoned session
+	Pods         [][2]int   `json:"pods"`           // runs of [count, pad]
+	Ctrs         [][2]int   `json:"ctrs"`           // runs of [count, pad]
+	Handler      string     `json:"handler"`        // "record" | "none" | "error"
+	Updates      int        `json:"updates"`        // container updates the handler returns (first k containers)
+	UpdPad       int        `json:"upd_pad"`        // padding bytes in each returned update (a Unified entry): makes the REPLY large
+	ReqTimeoutMs int        `json:"req_timeout_ms"` // request timeout for this case (0 = the harness default)
+	Slack        int        `json:"slack"`          // spare capacity of the slices the runtime's SyncFn passes (0 = cap == len)
+	Limit        int        `json:"limit"`          // ttrpc's maximum message length
+	MinObjs      int        `json:"min_objs"`       // documented minimum objects per message of the sender
+	Plugins      []PluginIn `json:"plugins"`        // kind "pre": the pre-installed plugins (launched by Adaptation.Start)
+	Stream       string     `json:"stream"`         // which generator stream produced the case
+	Note         string     `json:"note"`
 }
 
 // FirstIn describes the first session of a "restart" case: the state the runtime holds then,
@@ -110,6 +112,8 @@ type Obs struct {
 	Calls     []CallObs   `json:"calls"`
 	Returned  []int       `json:"returned"`        // container indices the handler's updates name
 	RtUpdates []int       `json:"runtime_updates"` // container indices of the updates the runtime's SyncFn received
+	UpdBad    int         `json:"upd_bad"`         // received updates that are not proto.Equal to what the handler returned for that container
+	UpdSizes  [][2]int    `json:"upd_sizes"`       // runs of [count, encoded size] of the updates the handler is set to return
 	Activated bool        `json:"activated"`       // the plugin received a later RunPodSandbox event
 	Alive     bool        `json:"alive"`           // the runtime process survived the case
 	Runaway   bool        `json:"runaway"`         // the harness cut the exchange off: more chunks than objects
